@@ -253,6 +253,59 @@ pub fn graph_strategy() -> BoxedStrategy<GraphSpec> {
 /// kind 0: /Parent chain above a page (resource inheritance), 1: nested /Pages nodes through /Kids, 2: outline siblings
 /// through /Next, 3: outline nesting through /First, 4: name-tree nesting through /Kids. `end`: 0 = ends properly,
 /// 1 = dangling, 2 = links back to the first chain node (cycle), 3 = links to itself.
+/// Ladders: `levels` levels of two nodes each, every node linking to BOTH nodes of the next level (shared nodes, no
+/// cycle). A walker that remembers visited nodes does 2 x levels visits; one that only guards the current path does
+/// 2^levels. kind 0: name tree through /Kids, 1: outline items through /First and /Next, 2: page tree through /Kids.
+pub fn ladder_strategy() -> BoxedStrategy<GraphSpec> {
+    (0u8..3, 4usize..70)
+        .prop_map(|(kind, levels)| {
+            let first = 10u32;
+            let node = |level: usize, side: u32| r(first + 2 * level as u32 + side);
+            let page = 5u32;
+            let dest = AObj::Array(vec![r(page), AObj::name("Fit")]);
+            let mut objs: Vec<(u32, AObj)> = vec![];
+            objs.push((1, AObj::dict(vec![("Type", AObj::name("Catalog")), ("Pages", r(2)), ("Outlines", r(3)), ("Names", AObj::dict(vec![("Dests", r(4))]))])));
+            objs.push((2, AObj::dict(vec![("Type", AObj::name("Pages")), ("Kids", AObj::Array(if kind == 2 { vec![node(0, 0), node(0, 1)] } else { vec![r(page)] })), ("Count", AObj::Int(1))])));
+            objs.push((3, AObj::dict(vec![("Type", AObj::name("Outlines")), ("First", if kind == 1 { node(0, 0) } else { r(6) }), ("Count", AObj::Int(1))])));
+            objs.push((4, if kind == 0 { AObj::dict(vec![("Kids", AObj::Array(vec![node(0, 0), node(0, 1)]))]) } else { AObj::dict(vec![("Names", AObj::Array(vec![AObj::lit(b"d"), dest.clone()]))]) }));
+            objs.push((page, AObj::dict(vec![("Type", AObj::name("Page")), ("Parent", r(2)), ("Contents", r(7))])));
+            objs.push((6, AObj::dict(vec![("Title", AObj::lit(b"t")), ("Parent", r(3)), ("Dest", dest.clone())])));
+            objs.push((7, AObj::Stream(vec![], B(b"BT /F1 9 Tf (x) Tj ET".to_vec()))));
+            for l in 0..levels {
+                for side in 0..2u32 {
+                    let last = l + 1 == levels;
+                    let d = match kind {
+                        0 => {
+                            if last {
+                                AObj::dict(vec![("Names", AObj::Array(vec![AObj::lit(format!("n{}", side).as_bytes()), dest.clone()]))])
+                            } else {
+                                AObj::dict(vec![("Kids", AObj::Array(vec![node(l + 1, 0), node(l + 1, 1)]))])
+                            }
+                        }
+                        1 => {
+                            let mut v = vec![("Title", AObj::lit(format!("o{}-{}", l, side).as_bytes())), ("Parent", r(3)), ("Dest", dest.clone())];
+                            if !last {
+                                v.push(("First", node(l + 1, 0)));
+                                v.push(("Next", node(l + 1, 1)));
+                            }
+                            AObj::dict(v)
+                        }
+                        _ => {
+                            if last {
+                                AObj::dict(vec![("Type", AObj::name("Pages")), ("Parent", r(2)), ("Count", AObj::Int(1)), ("Kids", AObj::Array(vec![r(page)]))])
+                            } else {
+                                AObj::dict(vec![("Type", AObj::name("Pages")), ("Parent", r(2)), ("Count", AObj::Int(1)), ("Kids", AObj::Array(vec![node(l + 1, 0), node(l + 1, 1)]))])
+                            }
+                        }
+                    };
+                    objs.push((first + 2 * l as u32 + side, d));
+                }
+            }
+            GraphSpec { objects: objs.into_iter().map(|(n, o)| (n, 0u16, o)).collect(), trailer: vec![(B::from("Root"), r(1))] }
+        })
+        .boxed()
+}
+
 pub fn chain_strategy() -> BoxedStrategy<GraphSpec> {
     (0u8..5, prop_oneof![3 => 1usize..50, 3 => 50usize..400, 2 => 400usize..3000], 0u8..4, any::<bool>())
         .prop_map(|(kind, n, end, with_resources)| {
